@@ -147,8 +147,12 @@ func termVal(t term) (any, error) {
 		if len(t.args) != 1 {
 			return nil, fmt.Errorf("bad i")
 		}
-		n, err := strconv.Atoi(t.args[0].name)
-		return n, err
+		// what a YAML parser hands over: an int, or a uint64 when the number is above the int64 range
+		if n, err := strconv.ParseInt(t.args[0].name, 10, 64); err == nil {
+			return int(n), nil
+		}
+		u, err := strconv.ParseUint(t.args[0].name, 10, 64)
+		return u, err
 	case "d":
 		if len(t.args) != 1 {
 			return nil, fmt.Errorf("bad d")
@@ -580,8 +584,23 @@ func (w *walker) walkField(fpath string, f flatField, set func(any) any, at stri
 	case reflect.Map:
 		w.add(gcase{kind: "mistyped", path: fpath, at: "-", exp: "reject", cfg: set([]any{1})})
 		if ft.Key().Kind() == reflect.String && kindName(ft.Elem()) == "str" {
-			w.add(gcase{kind: "valid", path: fpath, at: at, exp: "value", want: node("m", "k", tstr("v")), cfg: set(map[string]any{"k": "v"})})
-			w.add(gcase{kind: "ph-elem", path: fpath, at: at, exp: "value", want: node("m", "k", tstr("hello")),
+			// a mapping option is merged into the default mapping (ZeroFields is off): the default's entries stay
+			merged := func(k, v string) string {
+				m := map[string]string{}
+				if f.def.IsValid() && !f.def.IsNil() {
+					for _, mk := range f.def.MapKeys() {
+						m[mk.String()] = f.def.MapIndex(mk).String()
+					}
+				}
+				m[k] = v
+				var xs []string
+				for _, mk := range sortedKeys(m) {
+					xs = append(xs, enc(mk), tstr(m[mk]))
+				}
+				return node("m", xs...)
+			}
+			w.add(gcase{kind: "valid", path: fpath, at: at, exp: "value", want: merged("k", "v"), cfg: set(map[string]any{"k": "v"})})
+			w.add(gcase{kind: "ph-elem", path: fpath, at: at, exp: "value", want: merged("k", "hello"),
 				cfg: set(map[string]any{"k": "${env:C17_STR}"}), uses: true})
 			w.add(gcase{kind: "ph-unset", path: fpath, at: "-", exp: "reject", cfg: set(map[string]any{"k": "${property:" + propFile + "#nosuch}"}), uses: true})
 		}
@@ -609,6 +628,7 @@ func (w *walker) scalarCases(fpath string, f flatField, fk string, tags []string
 		return
 	}
 	w.consCases(fpath, f, fk, tags, set, at)
+	w.numCases(fpath, fk, tags, set, at)
 	// mistyped
 	var bad any
 	switch base {
@@ -758,6 +778,10 @@ func (w *walker) scalarCases(fpath string, f flatField, fk string, tags []string
 				cfg: set("[${env:C17_STR}: ${C17_INT}-" + ph("property", "str") + "]"), uses: true})
 			w.add(gcase{kind: "ph-unset", path: fpath + "#second", at: "-", fk: fk, exp: "reject", cfg: set("${env:C17_STR}-${env:C17_UNSET}"), uses: true})
 			w.add(gcase{kind: "ph-empty", path: fpath, at: at, fk: fk, exp: "value", want: tstr("xy"), cfg: set("x${env:C17_EMPTY}y"), uses: true})
+			// a tag of a type nobody registered is left as it is — and the placeholders after it are still substituted / still errors
+			w.add(gcase{kind: "ph-foreign", path: fpath, at: at, fk: fk, exp: "value", want: tstr("${foo:bar}-hello"), cfg: set("${foo:bar}-${env:C17_STR}"), uses: true})
+			w.add(gcase{kind: "ph-foreign", path: fpath + "#alone", at: at, fk: fk, exp: "value", want: tstr("${foo:bar}"), cfg: set("${foo:bar}"), uses: true})
+			w.add(gcase{kind: "ph-unset", path: fpath + "#after-foreign", at: "-", fk: fk, exp: "reject", cfg: set("${foo:bar}${env:C17_UNSET}"), uses: true})
 			if w.root == "synth" {
 				// a resolved value that contains the text of another placeholder of the same string: no demand, the outcome
 				// (a later tag's text is substituted again, an earlier one's is not) is compared with the model
@@ -884,6 +908,100 @@ func (w *walker) consCases(fpath string, f flatField, fk string, tags []string, 
 				}
 			}
 		}
+	}
+}
+
+// ---- numbers at the edges of what the option's type can hold (exp=num: the Spec derives "stored as that number" /
+// "refused" from the kind, the number and the field's constraints). Floats are written with few significant digits (the
+// shortest decimal text that names the float is what both sides see; 9.2e18 < 2^63 < 9.3e18, 1.8e19 < 2^64 < 1.9e19,
+// 3.4e38 < MaxFloat32 < 3.5e38).
+
+type numVal struct {
+	label string
+	v     any
+}
+
+func numBounds(fk string) []numVal {
+	parts := strings.SplitN(fk, ":", 2)
+	bits := 64
+	if len(parts) == 2 {
+		bits, _ = strconv.Atoi(parts[1])
+	}
+	var out []numVal
+	add := func(l string, v any) { out = append(out, numVal{l, v}) }
+	switch parts[0] {
+	case "int", "dur":
+		if bits < 64 {
+			hi := int(1)<<(bits-1) - 1
+			lo := -(int(1) << (bits - 1))
+			add("max", hi)
+			add("max+1", hi+1)
+			add("min", lo)
+			add("min-1", lo-1)
+			add("fmax", float64(hi))
+			add("fmax+1", float64(hi+1))
+			add("fmin", float64(lo))
+			add("fmin-1", float64(lo-1))
+			add("u64max", uint64(math.MaxUint64))
+			add("f1e19", 1e19)
+		} else {
+			add("max", math.MaxInt64)
+			add("max+1", uint64(1)<<63)
+			add("min", math.MinInt64)
+			add("u64max", uint64(math.MaxUint64))
+			add("f9.2e18", 9.2e18)
+			add("f2^63", math.Ldexp(1, 63)) // the first float the type cannot hold (its shortest decimal text lies above it, too)
+			add("f9.3e18", 9.3e18)
+			add("f-9.2e18", -9.2e18)
+			add("f-9.3e18", -9.3e18)
+			add("f1e19", 1e19)
+			add("f1e30", 1e30)
+		}
+	case "uint":
+		if bits < 64 {
+			hi := int(1)<<bits - 1
+			add("max", hi)
+			add("max+1", hi+1)
+			add("fmax", float64(hi))
+			add("fmax+1", float64(hi+1))
+			add("u64max", uint64(math.MaxUint64))
+			add("f1.9e19", 1.9e19)
+		} else {
+			add("max", uint64(math.MaxUint64))
+			add("i64max", math.MaxInt64)
+			add("f9.3e18", 9.3e18)
+			add("f1.8e19", 1.8e19)
+			add("f2^64", math.Ldexp(1, 64))
+			add("f1.9e19", 1.9e19)
+			add("f1e30", 1e30)
+		}
+	case "float":
+		if bits == 32 {
+			add("f3.4e38", 3.4e38)
+			add("f3.5e38", 3.5e38)
+			add("f-3.4e38", -3.4e38)
+			add("f-3.5e38", -3.5e38)
+			add("f1.5e38", 1.5e38)
+			add("f1e39", 1e39)
+		} else {
+			add("f1e39", 1e39)
+			add("f-1e300", -1e300)
+			add("i2^53", 1<<53)
+		}
+	}
+	return out
+}
+
+func (w *walker) numCases(fpath string, fk string, tags []string, set func(any) any, at string) {
+	if at == "-" {
+		// inside the block of a nested plugin: its constructor runs while the configuration is decoded, and what a component
+		// does with an enormous (but representable) count — a step schedule from 1 to 2^53 — is not config decoding.
+		// Every registered config is a root of its own (alt|…): there its fields get these cases, the constructor is not run.
+		return
+	}
+	tt := tagsTerm(tags)
+	for _, nv := range numBounds(fk) {
+		w.add(gcase{kind: "num", path: fpath + "#" + nv.label, at: at, fk: fk, exp: "num", want: valTerm(nv.v), tags: tt, cfg: set(nv.v)})
 	}
 }
 
@@ -1051,6 +1169,10 @@ func rootTarget(root string) (reflect.Type, reflect.Value) {
 		c := reflect.ValueOf(synthDefault())
 		return c.Type().Elem(), c
 	}
+	if root == "probe" {
+		c := reflect.ValueOf(&probeRoot{})
+		return c.Type().Elem(), c
+	}
 	parts := strings.SplitN(root, "|", 3)
 	for _, iface := range regOrder {
 		if iface.String() == parts[1] {
@@ -1099,7 +1221,7 @@ func (c gcase) line() string {
 }
 
 func allRoots() []string {
-	roots := []string{"cli", "synth"}
+	roots := []string{"cli", "synth", "probe"}
 	for _, iface := range regOrder {
 		for _, n := range altNames(iface) {
 			roots = append(roots, "alt|"+iface.String()+"|"+n)
@@ -1205,12 +1327,19 @@ var rawPool = map[string][]string{
 		"0x10", "0X1f", "0b101", "0B1", "0o17", "0O7", "017", "00", "-0x80", "+0b1", "0x7f", "0x80", "0xff", "0x100", "-0x81",
 		"1_000", "0_7", "0x_1", "0x1_f", "1_0_0", "_1", "1_", "1__0", "08", "0x", "0b", "0o", "0b2", "0xg", "0_x1", "0x_", "_", "42 "},
 	"float": {"0", "1", "-1", "2.5", "-0.5", "+0.25", "100", "0.125", "12345.5", "-0.0", "abc", "", "1.2.3", "-", "1,5", "true",
-		"1e3", "1.5E-2", ".5", "5.", "-.5e1", "1e+2", "0.1e1", "25e-2", "1e", "e3", ".", "1e+", "1.5e2.5", "+.e1", " 1"},
+		"1e3", "1.5E-2", ".5", "5.", "-.5e1", "1e+2", "0.1e1", "25e-2", "1e", "e3", ".", "1e+", "1.5e2.5", "+.e1", " 1",
+		// the range of the width: a float32 ends a little above 3.4e38, a float64 a little below 1.8e308
+		"3.4e38", "3.5e38", "1e39", "-1e39", "-3.4e38", "1e308", "1e309", "-1e400"},
 	"bool":  {"1", "t", "T", "TRUE", "true", "True", "0", "f", "F", "FALSE", "false", "False", "yes", "no", "tRuE", "", "2", "on", " true"},
 	"dur": {"0", "7s", "1m30s", "250ms", "-5s", "+3s", "1h2m3s4ms5us6ns", "90m", "1000", "-1", "5x", "s", "1s2", "", "abc", "1 s", "--1s",
 		"9223372036854775807", "9223372036854775808", "2562047h"},
 	"str": {"", "hello", "a b", " padded ", "trail ", " lead", "with=eq", "with#hash", "${env:C17_STR}", "x:y", "%41", "ü", "tab\there", "'q'", "{}", "$", "${", "}"},
 }
+
+// texts at the edge of a width: always part of the quick tier
+var rawEdge = map[string]bool{"3.4e38": true, "3.5e38": true, "1e39": true, "-1e39": true, "1e308": true, "1e309": true,
+	"127": true, "128": true, "-128": true, "-129": true, "255": true, "256": true, "65535": true, "65536": true,
+	"9223372036854775807": true, "9223372036854775808": true, "18446744073709551615": true, "18446744073709551616": true}
 
 func poolFor(fk string) []string {
 	base := strings.SplitN(fk, ":", 2)[0]
@@ -1231,7 +1360,7 @@ func rawCases(r *rand.Rand, tier string) []gcase {
 	for _, f := range synthFields {
 		pool := poolFor(f.fk)
 		for _, raw := range pool {
-			if tier == "quick" && r.Intn(100) >= 22 {
+			if tier == "quick" && !rawEdge[raw] && r.Intn(100) >= 22 {
 				continue
 			}
 			m := cloneMap(base)
@@ -1337,6 +1466,28 @@ func propCases(r *rand.Rand, tier string) []gcase {
 	return out
 }
 
+// sameTagCases: ONE placeholder text at fields of several kinds of one configuration — every field gets the resolved
+// text converted to ITS kind (the conversion belongs to the position, not to the placeholder)
+func sameTagCases() []gcase {
+	var out []gcase
+	base := synthBase()
+	add := func(label, tag string, ws []probeWant, fields ...string) {
+		m := cloneMap(base)
+		for _, f := range fields {
+			m[f] = tag
+		}
+		out = append(out, gcase{kind: "ph-same", path: "/" + label, at: "-", exp: "values", want: wantsTerm(ws), cfg: m, uses: true})
+	}
+	add("int-everywhere", "${env:C17_INT}", []probeWant{{"I64", node("i", "42")}, {"Note", tstr("42")}, {"U16", node("u", "42")},
+		{"F64", node("d", "42")}, {"Pause", node("i", "42")}, {"I8", node("i", "42")}}, "i64", "note", "u16", "F64", "pause", "i8")
+	add("note-first", "${env:C17_INT}", []probeWant{{"Note", tstr("42")}, {"U64", node("u", "42")}}, "note", "u64")
+	add("bool-and-string", "${env:C17_TRUE}", []probeWant{{"Flag", node("b", "true")}, {"Note", tstr("true")}}, "flag", "note")
+	add("float-and-string", "${env:C17_FLOAT}", []probeWant{{"F64", node("d", "2.5")}, {"Note", tstr("2.5")}, {"F32", node("d", "2.5")}}, "F64", "note", "f32")
+	add("duration-and-string", "${env:C17_DUR}", []probeWant{{"Pause", node("i", "7000000000")}, {"Note", tstr("7s")}}, "pause", "note")
+	add("property", ph("property", "int"), []probeWant{{"I32", node("i", "42")}, {"Note", tstr("42")}, {"U8", node("u", "42")}}, "i32", "note", "u8")
+	return out
+}
+
 func genCases(r *rand.Rand, tier string) []string {
 	var out []string
 	for _, root := range allRoots() {
@@ -1345,13 +1496,27 @@ func genCases(r *rand.Rand, tier string) []string {
 		if root == "cli" {
 			w.maxPlugin = 3
 		}
+		if root == "probe" || strings.HasPrefix(root, "alt|"+probeIface.String()+"|") {
+			w.maxPlugin = 1 // the probe config nests a probe position: one level of it
+		}
 		w.walkStruct("", t, d.Elem(), func(m map[string]any) any { return m }, []string{}, 0)
 		if root == "synth" {
-			for _, c := range append(rawCases(r, tier), propCases(r, tier)...) {
+			for _, c := range append(append(rawCases(r, tier), propCases(r, tier)...), sameTagCases()...) {
+				w.add(c)
+			}
+		}
+		if root == "probe" {
+			for _, c := range instCases(r, tier) {
 				w.add(c)
 			}
 		}
 		for _, c := range w.out {
+			if tier == "quick" && root == "probe" && c.kind != "inst" && c.kind != "base" {
+				// the probe configs are walked exhaustively as roots of their own; below the probe root a sample
+				if r.Intn(100) >= 10 {
+					continue
+				}
+			}
 			if tier == "quick" && root == "cli" && c.kind != "unknown" && c.kind != "misspelled" && c.kind != "base" && c.kind != "typeonly" {
 				// the cli root repeats every plugin's cases below pools[0]: unknown keys and type-only blocks exhaustively, the rest sampled
 				if r.Intn(100) >= 12 {
@@ -1361,7 +1526,7 @@ func genCases(r *rand.Rand, tier string) []string {
 			out = append(out, c.line())
 		}
 		nc := 4
-		if root == "cli" || root == "synth" {
+		if root == "cli" || root == "synth" || root == "probe" {
 			nc = 60
 		}
 		if tier == "thorough" {
@@ -1378,8 +1543,10 @@ func genCases(r *rand.Rand, tier string) []string {
 			nr, depth = 400, 3
 		case root == "cli":
 			nr, depth = 8, 3
-		case root == "synth" && tier == "thorough":
+		case (root == "synth" || root == "probe") && tier == "thorough":
 			nr = 300
+		case root == "probe":
+			nr, depth = 6, 3
 		case tier == "thorough":
 			nr = 200
 		}
